@@ -497,7 +497,9 @@ def gen_c04(facts, cfg, mcport, events):
     for oev in outs:
         w('      { H.reset(); ' + args_decl(oev) + f' comp_.{p.name}.out.{oev.name}({args_call(oev)});')
         exp = ' && '.join([f'H.args.size() == {len(oev.formals)}'] + [f'H.args[{i}] == {IN_VALUES[i]}' for i in range(len(oev.formals))])
-        w(f'        verif::emit("C04", "out-event-to-holder", "{oev.name}", H.log.size() == 1 && H.log[0] == "{mcport.tag(oev)}@AB" && {exp}, "hits=" + H.joined()); }}')
+        w(f'        bool to_holder_ = H.log.size() == 1 && H.log[0] == "{mcport.tag(oev)}@AB" && {exp};')
+        w(f'        verif::emit("C04", "out-event-to-holder", "{oev.name}", to_holder_, "hits=" + H.joined());')
+        w(f'        verif::emit("C01", "route", "{mcport.tag(oev)}@holder", to_holder_, "after a granted claim by AB: hits=" + H.joined()); }}')
     w('    }')
     w('  }')
     return out
